@@ -11,7 +11,8 @@
 let h = load_consts (if Array.length Sys.argv > 1 then Sys.argv.(1) else "/nonexistent")
 let hget k d = try Hashtbl.find h k with Not_found -> d
 let hs = { h_prepare = (hget "h_prepare" "1" = "1"); h_parent = (hget "h_parent" "1" = "1");
-           h_child = (match hget "h_child" "3" with "0" -> CNone | "1" -> CUnlock | "2" -> CReinit | _ -> CReinitClear) }
+           h_child = (match hget "h_child" "3" with "0" -> CNone | "1" -> CUnlock | "2" -> CReinit | _ -> CReinitClear);
+           h_preinit = (hget "h_preinit" "0" = "1") }
 
 let rec nat_of_int i = if i <= 0 then O else S (nat_of_int (i - 1))
 let rec int_of_nat = function O -> 0 | S n -> 1 + int_of_nat n
@@ -59,7 +60,7 @@ let kind_of = function LStart -> 'S' | LOnce -> 'O' | LLock -> 'L' | LUnlock -> 
 
 let init_state nthreads calls ops =
   let prog = List.init calls (fun _ -> Call ops) in
-  init (fun t -> if int_of_nat t < nthreads then prog else [])
+  init hs (fun t -> if int_of_nat t < nthreads then prog else [])
 
 let tids n = List.init n (fun i -> i)
 
